@@ -73,6 +73,11 @@ pub struct Ctx {
     pub poison_mode: u8,
     /// CPU feature mask of the simulated machine the current call runs on (F11)
     pub cpu_mask: u32,
+    /// F22, "the history migrates": about every other guarded call of this run executes on another OS thread, the
+    /// companion of the simulator thread (the objects are `Send`; callers hand codecs to worker pools), with the per-thread state of the hooks and of the
+    /// harness handed over and back, so that the run is the same function of its decisions as on one thread
+    pub migrant: bool,
+    migrant_n: u64,
 }
 
 #[macro_export]
@@ -98,6 +103,8 @@ impl Ctx {
             poison_n: 0,
             poison_mode: 0,
             cpu_mask: u32::MAX,
+            migrant: false,
+            migrant_n: 0,
         }
     }
 
@@ -121,7 +128,12 @@ impl Ctx {
 
     /// Records a violation. Returns `true` if the run must stop.
     pub fn report(&mut self, v: Violation) -> bool {
-        self.hash.feed_str(v.oracle);
+        // A verdict that belongs to other properties only, and after which the run goes on unchanged, stays out of
+        // the event-log hash: whether it is reached may legitimately depend on what the OS thread did before (a
+        // per-thread cache's first-use allocation is C17's business, and no reason to refuse deciding C03).
+        if self.serves(&v.props) || v.fatal {
+            self.hash.feed_str(v.oracle);
+        }
         ev!(self, "!! {} [{}] {}", v.oracle, v.props.join(","), v.detail);
         if self.serves(&v.props) {
             self.count("violations");
@@ -182,6 +194,13 @@ impl Ctx {
     /// `Err(msg)` means a call panicked. Allocation is measured inside with `meas`.
     pub fn guarded<R>(&mut self, poison: bool, f: impl FnOnce() -> R) -> Result<R, String> {
         let seed = if poison { self.next_poison() } else { 0 };
+        if self.migrant {
+            // about every other call of a migrant history, by a function of the run's decisions alone
+            self.migrant_n += 1;
+            if simcore::prng::mix(&[self.poison_seed ^ 0xF22, self.migrant_n]) & 1 == 1 {
+                return self.guarded_elsewhere(seed, f);
+            }
+        }
         reed_solomon_simd::verif::set_poison(seed);
         reed_solomon_simd::verif::set_cpu_mask(self.cpu_mask);
         let res = catch_unwind(AssertUnwindSafe(f));
@@ -190,6 +209,88 @@ impl Ctx {
         match res {
             Ok(v) => Ok(v),
             Err(_) => Err(harness_panic_guard(take_panic_message())),
+        }
+    }
+
+    /// `guarded` on the companion OS thread of this simulator thread (F22). The caller waits for the call to end, so
+    /// exactly one of the two threads runs at any time and the closure's borrows are used by one thread at a time:
+    /// that is what `Handed` asserts. Everything the hooks and the harness keep per thread travels with the call and
+    /// comes back with it.
+    fn guarded_elsewhere<R>(&mut self, seed: u64, f: impl FnOnce() -> R) -> Result<R, String> {
+        struct Handed<T>(T);
+        // SAFETY: strictly sequential hand-over (send, then wait for the end before anything else happens here)
+        unsafe impl<T> Send for Handed<T> {}
+        impl<T> Handed<T> {
+            fn open(self) -> T {
+                self.0
+            }
+        }
+        struct PerThread {
+            perturb: (u64, u64),
+            mk: u32,
+            log: crate::lockstep::LockstepLog,
+            ctor: AllocStats,
+            divergence: Option<String>,
+            panic: String,
+        }
+        let mask = self.cpu_mask;
+        let state = PerThread {
+            perturb: crate::lockstep::perturb_state(),
+            mk: crate::codec::mk_counter(),
+            log: crate::lockstep::take_log(),
+            ctor: crate::codec::take_ctor_stats(),
+            divergence: crate::codec::take_layer_divergence(),
+            panic: take_panic_message(),
+        };
+        let job = Handed((f, state));
+        let mut back: Option<Handed<(Result<R, ()>, PerThread)>> = None;
+        {
+            let back = &mut back;
+            let task: Box<dyn FnOnce() + '_> = Box::new(move || {
+                let (f, st) = job.open();
+                crate::lockstep::set_perturb_state(st.perturb);
+                crate::codec::set_mk_counter(st.mk);
+                crate::lockstep::set_log(st.log);
+                crate::codec::set_ctor_stats(st.ctor);
+                crate::codec::set_layer_divergence(st.divergence);
+                PANIC_MSG.with(|m| *m.borrow_mut() = st.panic);
+                reed_solomon_simd::verif::set_poison(seed);
+                reed_solomon_simd::verif::set_cpu_mask(mask);
+                let res = catch_unwind(AssertUnwindSafe(f));
+                reed_solomon_simd::verif::set_poison(0);
+                reed_solomon_simd::verif::set_cpu_mask(u32::MAX);
+                *back = Some(Handed((
+                    res.map_err(|_| ()),
+                    PerThread {
+                        perturb: crate::lockstep::perturb_state(),
+                        mk: crate::codec::mk_counter(),
+                        log: crate::lockstep::take_log(),
+                        ctor: crate::codec::take_ctor_stats(),
+                        divergence: crate::codec::take_layer_divergence(),
+                        panic: take_panic_message(),
+                    },
+                )));
+            });
+            // SAFETY: `run_on_companion` returns only after the task has run to its end (or the process exits), so
+            // nothing the task borrows is used after its lifetime; the two threads never run at the same time.
+            let task: Box<dyn FnOnce() + Send + 'static> = unsafe { std::mem::transmute(task) };
+            run_on_companion(task);
+        }
+        let Some(back) = back else {
+            eprintln!("harness error: the companion thread did not run the call: {}", LAST_PANIC.lock().map(|g| g.clone()).unwrap_or_default());
+            std::process::exit(2);
+        };
+        let (res, st) = back.open();
+        crate::lockstep::set_perturb_state(st.perturb);
+        crate::codec::set_mk_counter(st.mk);
+        crate::lockstep::set_log(st.log);
+        crate::codec::set_ctor_stats(st.ctor);
+        crate::codec::set_layer_divergence(st.divergence);
+        PANIC_MSG.with(|m| *m.borrow_mut() = st.panic);
+        self.count("migrant.calls_on_another_thread");
+        match res {
+            Ok(v) => Ok(v),
+            Err(()) => Err(harness_panic_guard(take_panic_message())),
         }
     }
 
@@ -202,6 +303,48 @@ impl Ctx {
             Err(_) => Err(harness_panic_guard(take_panic_message())),
         }
     }
+}
+
+// ======================================================================
+// Companion thread (F22)
+
+struct Companion {
+    tx: std::sync::mpsc::Sender<Box<dyn FnOnce() + Send + 'static>>,
+    done: std::sync::mpsc::Receiver<()>,
+}
+
+thread_local! {
+    /// every simulator thread has one long-lived companion OS thread that executes the guarded calls of migrant
+    /// histories; like the simulator threads it lives across runs (a thread with a past)
+    static COMPANION: RefCell<Option<Companion>> = const { RefCell::new(None) };
+}
+
+fn run_on_companion(task: Box<dyn FnOnce() + Send + 'static>) {
+    COMPANION.with(|c| {
+        let mut c = c.borrow_mut();
+        let comp = c.get_or_insert_with(|| {
+            let (tx, rx) = std::sync::mpsc::channel::<Box<dyn FnOnce() + Send + 'static>>();
+            let (done_tx, done) = std::sync::mpsc::channel::<()>();
+            let spawned = std::thread::Builder::new().name("rsim-companion".into()).stack_size(64 << 20).spawn(move || {
+                for task in rx {
+                    task();
+                    if done_tx.send(()).is_err() {
+                        break;
+                    }
+                }
+            });
+            if let Err(e) = spawned {
+                eprintln!("harness error: cannot start a companion thread: {e}");
+                std::process::exit(2);
+            }
+            Companion { tx, done }
+        });
+        if comp.tx.send(task).is_err() || comp.done.recv().is_err() {
+            // the companion is gone: a panic outside the guarded call, i.e. in harness code
+            eprintln!("harness error: the companion thread died: {}", LAST_PANIC.lock().map(|g| g.clone()).unwrap_or_default());
+            std::process::exit(2);
+        }
+    });
 }
 
 /// Measures one crate call as an allocation region and accumulates into `acc`.
